@@ -22,7 +22,7 @@ VALS = [1, 5, 'v', b'y' * 20, None, [1, 2]]
 
 def gen_history(rng, length):
     cfg = {'mfs': 8, 'shards': rng.choice([1, 2, 8]), 'prefix': rng.choice(['', 'p', 'a:b']), 'version': rng.choice([1, 2]),
-           'deftimeout': rng.choice([300, 300, 10, None])}
+           'deftimeout': rng.choice([300, 300, 10, None, 0])}
     now = 1000
     ops = []
     for _ in range(length):
@@ -141,7 +141,7 @@ def acceptor(hist, io):
             elif t > 0:
                 ok = res == 'i%d' % t
             else:
-                ok = res.startswith('i-')
+                ok = res.startswith('i-') or res == 'i0'     # not positive: the item is expired as soon as it is stored
             if not ok:
                 return 'op #%d get_backend_timeout(%r) gave %s' % (idx, op.get('timeout'), res)
             continue
@@ -294,7 +294,7 @@ def run(tier, seed, rng, known, replay):
         violations.append({'replay': {'property': 'C19', 'kind': 'composites', 'acceptor': v}, 'found_input': True, 'what': v})
     return {
         'evaluations': sum(len(h['ops']) for h in hists) + 12, 'distinct_nontrivial': distinct,
-        'rule': 'seeded Django call histories over 3 keys x versions {default,1,2,5} x timeouts {default,None,0,-5,7,100}, backend TIMEOUT in {300,10,None}, '
+        'rule': 'seeded Django call histories over 3 keys x versions {default,1,2,5} x timeouts {default,None,0,-5,7,100}, backend TIMEOUT in {300,10,None,0}, '
                 'KEY_PREFIX in {"","p","a:b"}, VERSION in {1,2}, SHARDS in {1,2,8}, clock steps 0/1/3/9; plus the BaseCache composites once; '
                 'distinct = distinct (method, result) pairs',
         'samples': [base.sample(hists[0], r['impl_out'][0])], 'traces': len(hists),
